@@ -399,7 +399,7 @@ def mc_system(ctx, variant, expect=None):
         j["cached"] = True
     else:
         cfg = ctx.path("sys-%s.cfg" % variant)
-        open(cfg, "w").write('SPECIFICATION Spec\nCONSTANTS ScenSet = {1, 2, 3, 4, 5, 6} Variant = "%s"\nINVARIANT ShowBad NoViolation%s\nCHECK_DEADLOCK FALSE\n'
+        open(cfg, "w").write('SPECIFICATION Spec\nCONSTANTS ScenSet = {1, 2, 3, 4, 5, 6, 7} Variant = "%s"\nINVARIANT ShowBad NoViolation%s\nCHECK_DEADLOCK FALSE\n'
                              % (variant, " Delivered" if variant == "ok" else ""))
         r = tlc(ctx, "System", cfg=cfg, workers=1 if variant == "ok" else 4, mode="mc", timeout=1800)
         bads = set()
@@ -414,7 +414,7 @@ def mc_system(ctx, variant, expect=None):
             d["channels"] += 1
             d["objects"] += len(vals)
             d["objects_delivered"] += sum(1 for v in vals if v >= 1)
-        j = {"name": "System[variant=%s, 6 scenarios x clean / every single loss / swap / duplicate / late join]" % variant, "states": r["distinct"],
+        j = {"name": "System[variant=%s, 7 scenarios x clean / every single loss / swap / duplicate / late join]" % variant, "states": r["distinct"],
              "generated": r["generated"], "wall_s": r["wall_s"], "completed_without_violation": r["ok"], "reported": sorted(bads)}
         if e2e:
             j["end_to_end_deliveries"] = e2e
